@@ -945,6 +945,7 @@ func (i *interpreter) unop(instr *ssa.UnOp, x value) value {
 			panic(runtimeError("invalid memory address or nil pointer dereference"))
 		}
 		i.preemptMem(p, false)
+		i.touch(mustDeref(instr.X.Type()), p, false)
 		return load(mustDeref(instr.X.Type()), p)
 	case token.NOT:
 		return !x.(bool)
